@@ -33,15 +33,25 @@ func init() {
 func main() {
 	r := common.Start("C20", "model_checking")
 	r.ColdStart(coldProbes())
-	parseAll(r)
-	roundTrip(r)
-	idGenerator(r)
-	strGenerator(r)
-	strGeneratorLarge(r)
-	strOverlap(r)
-	idOverlap(r)
-	countGenerator(r)
-	packageLevel(r)
+	coldFailed := r.NumViolations() > 0 // a probe crashed or hung its own process: do not repeat that in this one
+	// every family under a last-resort guard: a panic of golib that reaches the harness outside the
+	// guarded calls (a constructor, a package-level setter) is a violation, not a crash of the check
+	family := func(name string, f func(*common.Run)) {
+		if _, st, p := common.Catch(func() { f(r) }); p {
+			r.Violation(name+"|panic|"+common.PanicSite(st), "golib panicked at "+common.PanicSite(st)+" in the family '"+name+"'", map[string]any{"stack": st}, "")
+		}
+	}
+	family("ParseBase32", parseAll)
+	family("round trips", roundTrip)
+	family("IdGenerator", idGenerator)
+	family("StrGenerator", strGenerator)
+	family("StrGenerator (large)", strGeneratorLarge)
+	family("StrGenerator overlap", strOverlap)
+	family("IdGenerator overlap", idOverlap)
+	family("CountGenerator", countGenerator)
+	if !coldFailed {
+		family("package-level entry points", packageLevel)
+	}
 	r.Assume("small-scope: ParseBase32 inputs up to 3 arbitrary bytes (+ structured longer numerals); IDs < 2^20 (quick) / 2^24 (thorough) and 2^k-1,2^k,2^k+1",
 		"IdGenerator timestamps are compared with a bracket measured around the call, random source scripted through crypto/rand.Reader",
 		"StrGenerator: scripted rand.Source answers of <= 3 words followed by a fixed accepting tail")
@@ -185,13 +195,18 @@ func checkID(r *common.Run, v int64) {
 	if err != nil || int64(back) != v {
 		r.Violation("ParseBase32(Base32)|round-trip", fmt.Sprintf("ParseBase32(ID(%d).Base32()=%q) = %d, %v", v, s, back, err), map[string]any{"id": v}, "")
 	}
-	if got, w := id.Base2(), big.NewInt(v).Text(2); got != w {
+	var b2, b36, b10 string
+	if _, st, p := common.Catch(func() { b2, b36, b10 = id.Base2(), id.Base36(), id.String() }); p {
+		r.Violation("Base2/Base36/String|panic", "Base2 / Base36 / String panicked", map[string]any{"id": v, "stack": st}, "")
+		return
+	}
+	if got, w := b2, big.NewInt(v).Text(2); got != w {
 		r.Violation("Base2|wrong-numeral", fmt.Sprintf("ID(%d).Base2() = %q want %q", v, got, w), map[string]any{"id": v}, "")
 	}
-	if got, w := id.Base36(), big.NewInt(v).Text(36); got != w {
+	if got, w := b36, big.NewInt(v).Text(36); got != w {
 		r.Violation("Base36|wrong-numeral", fmt.Sprintf("ID(%d).Base36() = %q want %q", v, got, w), map[string]any{"id": v}, "")
 	}
-	if got, w := id.String(), big.NewInt(v).Text(10); got != w {
+	if got, w := b10, big.NewInt(v).Text(10); got != w {
 		r.Violation("String|wrong-numeral", fmt.Sprintf("ID(%d).String() = %q want %q", v, got, w), map[string]any{"id": v}, "")
 	}
 	if id.Int64() != v {
@@ -320,7 +335,11 @@ func idGenerator(r *common.Run) {
 		for _, off := range offsets {
 			for _, rdr := range readers {
 				start := time.Now().Add(off.d)
-				g := randz.NewIdGenerator(start, randBit)
+				var g randz.IdGenerator
+				if _, st, p := common.Catch(func() { g = randz.NewIdGenerator(start, randBit) }); p {
+					r.Violation("NewIdGenerator|panic", fmt.Sprintf("NewIdGenerator(start, %d) panicked", randBit), map[string]any{"randBit": randBit, "stack": st}, "")
+					continue
+				}
 				rd := rdr.mk()
 				srand.Reader = rd
 				var prev randz.ID = -1
@@ -424,7 +443,11 @@ func strGeneratorLarge(r *common.Run) {
 				for _, k := range []int{1, 8, 9, 10, 63, 64, 65, 1000} {
 					n++
 					src := &scriptSource{script: menu[mi : mi+sl]}
-					g := randz.NewStrGenerator(set, src)
+					var g randz.StrGenerator
+					if _, st, p := common.Catch(func() { g = randz.NewStrGenerator(set, src) }); p {
+						r.Violation("NewStrGenerator|panic", fmt.Sprintf("NewStrGenerator over a set of %d runes panicked", len([]rune(set))), map[string]any{"charset": set, "stack": st}, "")
+						continue
+					}
 					var out string
 					_, st, p := common.Catch(func() { out = g.Generate(k) })
 					c := map[string]any{"charset_size": size, "script": menu[mi : mi+sl], "n": k}
@@ -469,7 +492,11 @@ func strGenerator(r *common.Run) {
 				}
 				for n := 0; n <= maxN; n++ {
 					src := &scriptSource{script: script}
-					g := randz.NewStrGenerator(set, src)
+					var g randz.StrGenerator
+					if _, st, p := common.Catch(func() { g = randz.NewStrGenerator(set, src) }); p {
+						r.Violation("NewStrGenerator|panic", fmt.Sprintf("NewStrGenerator over a set of %d runes panicked", len([]rune(set))), map[string]any{"charset": set, "stack": st}, "")
+						continue
+					}
 					var out string
 					_, st, p := common.Catch(func() { out = g.Generate(n) })
 					r.Eval(1)
